@@ -203,6 +203,10 @@ let ff_op (op : string) (a : tok list) : string =
   | "cmp" -> bI (FfConv.cmp (el 0) (el 1))
   | "lexlargest" -> boolS (FfConv.lexLargest (el 0))
   | "iszero" -> boolS (FfLimbs.isZero (el 0))
+  | "bit" -> bI (FfConv.bit (el 0) (zi (List.nth a 1)))
+  | "bitlen" -> bI (FfConv.bitLen (el 0))
+  | "modulus" -> bI FfConv.modulus
+  | "one" -> raw_of_el FfLimbs.one
   | "legendre" -> bI (FfConv.legendre (el 0))
   | "sqrt" ->
     (match FfConv.sqrt (el 1) with
@@ -244,6 +248,19 @@ let ffg_op (op : string) (a : tok list) : string =
   | "cmp" -> bI (FfgConv.cmp (el 0) (el 1))
   | "lexlargest" -> boolS (FfgConv.lexLargest (el 0))
   | "iszero" -> boolS (FfgConv.isZero (el 0))
+  | "bit" -> bI (FfgConv.bit (el 0) (el 1))
+  | "bitlen" -> bI (FfgConv.bitLen (el 0))
+  | "modulus" -> bI FfgLimbs.modulus
+  | "one" -> bI FfgLimbs.one
+  | "setinterface" ->
+    (match zw (List.nth a 0) with
+     | "1" | "2" -> bI (el 1)
+     | "3" -> bI (FfgLimbs.setUint64 (el 1))
+     | "4" -> res_str bI (FfgConv.setString (Decimal.dec_of_Z (el 1)))
+     | "5" -> res_str bI (FfgConv.setString (zb (List.nth a 1)))
+     | "6" | "7" -> bI (FfgLimbs.setBigInt (el 1))
+     | "8" -> bI (FfgConv.setBytes (zb (List.nth a 1)))
+     | _ -> "ERR")
   | "legendre" -> bI (FfgConv.legendre (el 0))
   | "sqrt" ->
     (match FfgConv.sqrt (el 1) with
@@ -270,6 +287,8 @@ let dispatch (op : string) (a : tok list) : string =
   | "infield" -> boolS (Utils.coq_CheckBigIntInField q (i 0))
   | "newint" -> (match Decimal.parse_dec (b 0) with Some v -> bI v | None -> "ERR")
   | "padd" -> pt (BabyJub.coq_Affine (BabyJub.coq_Add (BabyJub.coq_Projective (p 0)) (BabyJub.coq_Projective (p 2))))
+  | "paffine" -> pt (BabyJub.coq_Affine ((i 0, i 1), i 2))
+  | "paddproj" -> pt (BabyJub.coq_Affine (BabyJub.coq_Add ((i 0, i 1), i 2) ((i 3, i 4), i 5)))
   | "mul" -> pt (BabyJub.coq_Mul (i 0) (p 1))
   | "mulrecv" | "mulalias" -> let r = BabyJub.coq_Mul (i 0) (p 1) in pt r ^ " " ^ pt r
   | "pset" -> pt (p 0) ^ " " ^ pt (p 0)
